@@ -67,9 +67,9 @@ _ASCII_NAMECH = _ASCII_START | set('0123456789.-')
 # non-ASCII letters (BaseChar / Ideographic in 4e, NameStartChar in 5e)
 SURE_START = '\u00e9\u00c0\u0153\u03b1\u0416\u05d0\u4e2d\u3042'
 # name characters that are not start characters in both editions (Extender / CombiningChar / Digit)
-SURE_NAMEONLY = '\u00b7\u0300\u0660'
+SURE_NAMEONLY = '\u00b7\u0300'
 # never name characters in either edition
-SURE_NEVER = '\u00d7\u00f7\u2014\u20ac !"#$%&\'()*+,/;<=>?@[\\]^`{|}~'
+SURE_NEVER = '\u00d7\u00f7\u2014 !"#$%&\'()*+,/;<=>?@[\\]^`{|}~'
 
 
 def _is_start(c, colon):
@@ -642,9 +642,14 @@ def canon_b64(b):
 #  anyURI: only clearly valid / clearly invalid strings are judged
 # ---------------------------------------------------------------------------------------------------------------
 _uri_unres = r"A-Za-z0-9\-_.!~*'()"
+_uc = r"(?:[" + _uri_unres + r";@&=+$,]|%[0-9A-Fa-f]{2})"
+_uq = r"(?:[" + _uri_unres + r";/?:@&=+$,]|%[0-9A-Fa-f]{2})"
 _uri_clear_valid = re.compile(
-    r'(?:[A-Za-z][A-Za-z0-9+.\-]*:)?(?://[A-Za-z0-9.\-]+(?::[0-9]+)?)?(?:/?(?:[' + _uri_unres + r';@&=+$,]|%[0-9A-Fa-f]{2})+)*/?(?:\?(?:[' + _uri_unres +
-    r';/?:@&=+$,]|%[0-9A-Fa-f]{2})*)?(?:#(?:[' + _uri_unres + r';/?:@&=+$,]|%[0-9A-Fa-f]{2})*)?\Z')
+    r'(?:'
+    r'[A-Za-z][A-Za-z0-9+.\-]*://[A-Za-z0-9](?:[A-Za-z0-9\-]*[A-Za-z0-9])?(?:\.[A-Za-z](?:[A-Za-z0-9\-]*[A-Za-z0-9])?)*(?::[0-9]+)?(?:/' + _uc + r'*)*'      # scheme://host[:port]/path
+    r'|[A-Za-z][A-Za-z0-9+.\-]*:[A-Za-z0-9]' + _uq + r'*'                                                                                              # scheme:opaque
+    r'|(?:\.\./|\./|/)?' + _uc + r'+(?:/' + _uc + r'*)*'                                                         # relative / absolute path
+    r')(?:\?' + _uq + r'*)?(?:#' + _uq + r'*)?\Z')
 
 
 def judge_anyuri(s):
@@ -662,6 +667,8 @@ def judge_anyuri(s):
         scheme = first.split(':', 1)[0]
         if not re.match(r'[A-Za-z][A-Za-z0-9+.\-]*\Z', scheme):
             return None                   # e.g. "1a:b", ":a" -- invalid in RFC 2396 but implementations differ: not judged
+    if s[:1] in '#?' and re.match(r'(?:\?' + _uq + r'*)?(?:#' + _uq + r'*)?\Z', s):
+        return True
     if _uri_clear_valid.match(s):
         return True
     return None
@@ -677,6 +684,9 @@ INT_FAMILY = tuple(INT_RANGES)
 PRIMS = ('string', 'boolean', 'decimal', 'float', 'double', 'duration') + DT_TYPES + ('hexBinary', 'base64Binary', 'anyURI', 'QName', 'NOTATION')
 
 
+FLOAT_AS_DOUBLE = False      # diagnosis only: evaluate xs:float literals with binary64 precision (see c09.Judge.alt_float)
+
+
 def prim_value(prim, s):
     """value of the normalised literal s in primitive type prim, or None if s is not in the lexical space.
     May raise Skip."""
@@ -687,7 +697,7 @@ def prim_value(prim, s):
     if prim == 'decimal':
         return parse_decimal(s)
     if prim == 'float':
-        return float_value(s, 'f')
+        return float_value(s, 'd' if FLOAT_AS_DOUBLE else 'f')
     if prim == 'double':
         return float_value(s, 'd')
     if prim == 'duration':
@@ -1159,11 +1169,28 @@ def classify(tname, prim, s):
             f.append('ws')
         if re.match(r'[+-]?0*\.?0*([eE].*)?\Z', s) and re.search('[0-9]', mant):
             f.append('zero')
+        if prim in ('float', 'double'):
+            try:
+                lx = parse_float_lex(s)
+            except Skip:
+                lx = 'huge'
+            if lx == 'huge':
+                f.append('huge-exponent')
+            elif isinstance(lx, tuple) and lx[1] != 0:
+                fmt = FLT if prim == 'float' else DBL
+                if lx[1] > (2 ** fmt['p'] - 1) * Fraction(2) ** fmt['emax']:
+                    f.append('gt-max')
+                elif lx[1] < Fraction(2) ** (fmt['emin'] + (fmt['p'] - 1 if prim == 'double' else 0)):
+                    f.append('lt-min')
         if not f:
             f.append('plain')
         return '+'.join(f)
     if prim in DT_RE or prim == 'duration':
         if prim == 'duration':
+            if re.search(r'[PTYMDH](?=[YMDHS])', s.replace('PT', 'P', 1) if s.lstrip('-').startswith('PT') else s) or re.search(r'T[YMDHS]', s):
+                return 'dur:designator-without-number'
+            if re.search(r'\.(?![0-9])|(?<![0-9])\.', s):
+                return 'dur:dot-no-digits'
             return 'dur:' + shape(re.sub('[0-9]+', '9', s))
         m = re.search(r'(Z|[+-][0-9]{2}:[0-9]{2})\Z', s)
         if m:
@@ -1182,7 +1209,9 @@ def classify(tname, prim, s):
             f.append('neg-year')
         if re.match(r'-?[0-9]{5,}', s):
             f.append('long-year')
-        if not DT_RE[prim].match(s):
+        if re.search(r'\.(?![0-9])', s):
+            f.append('dot-no-digits')
+        elif not DT_RE[prim].match(s):
             f.append('malformed:' + shape(s))
         return '+'.join(f) or 'plain'
     if prim == 'hexBinary':
@@ -1204,8 +1233,46 @@ def classify(tname, prim, s):
             f.append('alien-char')
         return '+'.join(f)
     if prim == 'boolean':
-        return 'bool:' + (s if len(s) < 8 else shape(s))
-    return shape(s)
+        return 'bool:' + (s if s in CATALOGUE['boolean'] else shape(s))
+    if prim == 'anyURI':
+        if s == '':
+            f.append('empty')
+        if ' ' in s:
+            f.append('space')
+        if any(ord(c) >= 0x80 for c in s):
+            f.append('nonascii')
+        if any(c in '<>"{}|\\^`' for c in s):
+            f.append('excluded-ascii')
+        if any(c in '[]' for c in s):
+            f.append('brackets')
+        if re.search(r'%(?![0-9A-Fa-f]{2})', s):
+            f.append('bad-escape')
+        if s.count('#') > 1:
+            f.append('multi-fragment')
+        if re.match(r'[A-Za-z][A-Za-z0-9+.\-]*:', s):
+            f.append('scheme' if not re.match(r'[A-Za-z][A-Za-z0-9+.\-]*:\Z', s) else 'scheme-only')
+        elif ':' in re.split(r'[/?#]', s, 1)[0]:
+            f.append('colon-in-first-segment')
+        return '+'.join(f) or 'plain'
+    # string family, QName
+    if s == '':
+        f.append('empty')
+    if any(ord(c) > 0xFFFF for c in s):
+        f.append('astral')
+    elif any(ord(c) >= 0x80 for c in s):
+        f.append('nonascii')
+    if any(c in WS_CHARS for c in s):
+        f.append('ws')
+    if tname in ('Name', 'NCName', 'ID', 'IDREF', 'ENTITY', 'NMTOKEN', 'QName', 'language'):
+        if ':' in s:
+            f.append('colon%d' % min(s.count(':'), 3))
+        if s and not _is_start(s[0], True):
+            f.append('non-start-first')
+        if any(not _is_namech(c, True) for c in s):
+            f.append('non-name-char')
+        if tname == 'language':
+            f.append('lang:' + shape(s))
+    return '+'.join(f) or 'plain'
 
 
 # ---------------------------------------------------------------------------------------------------------------
@@ -1278,7 +1345,7 @@ def _year(r):
     c = r.random()
     if c < 0.55:
         return '%04d' % r.choice([1, 4, 100, 400, 1582, 1696, 1697, 1899, 1900, 1903, 1904, 1970, 1972, 1999, 2000, 2001, 2004, 2023, 2024, 2100, 9999])
-    if c < 0.7:
+    if c < 0.76:
         return '%04d' % r.randint(1, 9999)
     if c < 0.8:
         return '-%04d' % r.choice([1, 4, 5, 100, 2000])
@@ -1674,7 +1741,10 @@ def neighbours(r, t, s):
             v = -lx[1] if lx[2] else lx[1]
             for f in (Fraction(999, 1000), Fraction(1001, 1000), Fraction(1, 2), 2):
                 w = v * f
-                out.append(('%.9E' if prim == 'float' else '%.17E') % float(w))
+                try:
+                    out.append(('%.9E' if prim == 'float' else '%.17E') % float(w))
+                except OverflowError:
+                    pass
             out += ['0', '-1', '1', 'INF', '-INF']
     elif prim in ('dateTime', 'date', 'time', 'gYearMonth', 'gYear', 'gMonthDay', 'gDay', 'gMonth'):
         def bump(m):
@@ -1720,6 +1790,8 @@ def gen_restriction(r, base, ev, name, pool):
         kinds += ['length', 'length', 'enumeration', 'pattern']
         if prim == 'string' and base.ws() != 'collapse' and not any(a.lexrule for a in base.chain()):
             kinds.append('whiteSpace')
+    elif variety == 'atomic' and prim == 'boolean':
+        kinds += ['pattern']                 # XSD 1.0: boolean has no enumeration facet
     elif variety == 'atomic':
         kinds += ['enumeration', 'pattern']
     elif variety == 'list':
